@@ -137,12 +137,15 @@ def inner_apps(tmpdir):
     return apps, raw
 
 
+ZC = {"on": False}     # the ASGI server offers the zero-copy-send extension (toggled by the enumeration)
+
+
 def run_one(iface, app):
     if iface == "wsgi":
         rec = run_wsgi(app, wsgi_environ("GET", "/"))
         status = int(rec["status"].split()[0]) if rec["status"] else None
     else:
-        rec = run_asgi(app, asgi_scope("GET", "/"))
+        rec = run_asgi(app, asgi_scope("GET", "/"), zerocopy=ZC["on"])
         status = rec["status"]
     return rec, status
 
@@ -236,6 +239,7 @@ def case(name, iface, depth, kind, tmpdir):
 
 def replay(inputs):
     _TIER["tier"] = "thorough"     # the superset of application names
+    ZC["on"] = bool(inputs.get("zerocopy"))
     d = tempfile.mkdtemp(prefix="verif_c20_")
     try:
         v, dup = case(inputs["app"], inputs["iface"], inputs["depth"], inputs["kind"], d)
@@ -301,6 +305,20 @@ def bounded(tier, seed):
                                              "violated": v})
                         elif len(samples) < 3 and depth == 3:
                             samples.append({"app": name, "iface": iface, "kind": kind, "depth": depth})
+            if iface == "asgi":
+                # the same stacks with a server that offers zero-copy send (file responses use it when they can)
+                ZC["on"] = True
+                try:
+                    for name in ("file", "plain", "stream"):
+                        for depth in range(0, 3):
+                            evals += 1
+                            v, dup = case(name, "asgi", depth, "middleware", d)
+                            distinct.add(("asgi+zc", name, depth))
+                            if v and len(failures) < 12:
+                                failures.append({"inputs": {"app": name, "iface": "asgi", "depth": depth, "kind": "middleware", "region": None,
+                                                            "zerocopy": True}, "violated": v})
+                finally:
+                    ZC["on"] = False
             evals += 1
             v = header_edit_case(iface)
             if v:
@@ -312,7 +330,7 @@ def bounded(tier, seed):
             "rule": "inner applications: every bundled response class (incl. multi-chunk stream, file, 1 and 2 cookies, unknown "
                     "status), raw apps returning a list / tuple / generator / empty iterable / duplicate header names, and raw apps for "
                     "every chunk sequence of length <= 3 over {b'', b'a', b'bc'} as list, tuple and generator; identity "
-                    "middleware and decorator stacks of depth 0..3; both interfaces; compared with the bare application "
+                    "middleware and decorator stacks of depth 0..3; both interfaces (ASGI also with a server offering zero-copy send); compared with the bare application "
                     "(status, header multiset up to name case, body bytes, inner app ran once); one header-editing middleware",
             "exhaustive": False}
 
